@@ -101,5 +101,12 @@ CHECKS["C10"] = dict(
     note="scripted meters through the public RebalancerMeter option; rotation position projected out of the key; pools of <= 3 servers (A4)",
     parts=[dict(bin="vh", part="c10", shards=16, gang=True, budget=dict(quick=90, thorough=1500))])
 
+CHECKS["C19"] = dict(
+    level="exploration", engine="enum", design_ref="DESIGN.md §5 C19",
+    technique="bounded-exhaustive input enumeration against the real extractors (all address strings of the stated families, all short strings over a punctuation alphabet, all pairs)",
+    text="Every IPv4 quad over {0,1,10,127,255}^4 x ports, IPv6 addresses x zone forms x ports in net/http's bracketed form, all strings of length <= 5 over {1 a : [ ] . %}, all well-formed pairs for 'same token iff same address', Host and header name/value case variants, and a list of unsupported variable names.",
+    note="small-scope: address components and strings from the listed alphabets (A4); zone may be kept or stripped",
+    parts=[dict(bin="vh", part="c19", shards=1)])
+
 NOT_APPLICABLE = [dict(property_id=p, reason="check not built yet in this revision (work in progress; see DESIGN.md for the plan)")
                   for p in ALL if p not in CHECKS]
